@@ -278,6 +278,50 @@ def work(job):
     return res
 
 
+def missing_src_work(job):
+    """The configured source directory does not exist next to the configuration file, but a directory of that name exists where the
+    command is run (and one level up): nothing there is in scope, so nothing may be read, reported or changed."""
+    built, seed, i = job
+    rnd = core.rng_for("c15miss", seed, i)
+    res = {"evaluations": 1, "nontrivial": [], "violations": [], "samples": [], "inconclusive": {}, "counters": {}}
+    mode = "check" if i % 2 else "edit"
+    sd = rnd.choice(["src", "./src", "code/src", "src/"])
+    with core.Box(tag="c15m") as box:
+        cfgdir = os.path.join(box.proj, rnd.choice(["ci", "tools/logging", "config"]))
+        os.makedirs(cfgdir)
+        cfgp = os.path.join(cfgdir, "Breadlog.yaml")
+        with open(cfgp, "w") as f:
+            f.write(core.make_config(source_dir=sd))
+        for base in (box.proj, box.root):
+            p_ = os.path.join(base, sd.rstrip("/"), "lib.rs")
+            os.makedirs(os.path.dirname(p_), exist_ok=True)
+            with open(p_, "wb") as f:
+                f.write(STMT)
+        cwd = rnd.choice([box.proj, box.root])
+        carg = rnd.choice([cfgp, os.path.relpath(cfgp, cwd)])
+        before = core.snapshot(box.root)
+        r = core.run_breadlog(built, box, cfgp, check=(mode == "check"), cwd=cwd, cfg_arg=carg, shim=True)
+        after = core.snapshot(box.root)
+        opened = sorted(os.path.relpath(o["path"], box.root) for o in (r.shim or []) if o["kind"] in ("openr", "openw") and o["path"].endswith(".rs"))
+    if r.panicked() or r.timed_out:
+        res["inconclusive"]["run-crashed (C17's business)"] = 1
+        return res
+    res["nontrivial"].append("missing-source-dir|%s|%s" % (sd, mode))
+    res["counters"]["missing_source_dir_with_lookalike_in_cwd"] = 1
+    diff = core.snap_diff(before, after, meta=False)
+    v = []
+    if diff:
+        v.append(("out-of-scope-path-modified", {"diff": diff[:4]}))
+    if opened:
+        v.append(("out-of-scope-file-read", {"paths": opened[:4]}))
+    if r.missing():
+        v.append(("out-of-scope-file-reported", {"paths": [m[0] for m in r.missing()][:4]}))
+    for clause, detail in v:
+        res["violations"].append({"signature": "C15.%s|source-dir-missing-next-to-config|%s" % (clause, mode),
+                                  "detail": dict(detail, exit=r.ended(), argv=r.argv[1:], cwd=cwd), "case": {"missing_src": [seed, i]}})
+    return res
+
+
 def main(tier):
     ck = frame.Check(PROP, tier, "exploration", replay_fn=replay_witness)
     built = core.build_repo()
@@ -286,6 +330,8 @@ def main(tier):
     full = len(EXT_LISTS) * len(SRC_FORMS) * len(CFG_FORMS) * len(CWDS)
     n = full * 5 if tier == "quick" else full * 60
     for res in frame.pmap(work, [(built, ck.seed, i) for i in range(n)], chunksize=4):
+        ck.absorb(res)
+    for res in frame.pmap(missing_src_work, [(built, ck.seed, i) for i in range(40 if tier == "quick" else 400)], chunksize=4):
         ck.absorb(res)
     ck.extra["product"] = {"extension_lists": EXT_LISTS, "source_dir_forms": SRC_FORMS, "config_path_forms": CFG_FORMS, "cwds": CWDS}
     ck.exhaustive = True
@@ -303,6 +349,8 @@ def replay_witness(w, ck=None, built=None):
     built = built or (ck.built if ck else None) or core.build_repo()
     core.build_shim()
     c = w["case"] if "case" in w else w["first"]["case"]
+    if "missing_src" in c:
+        return bool(missing_src_work((built, c["missing_src"][0], c["missing_src"][1]))["violations"])
     r = work((built, c["seed"], c["i"]))
     return bool(r["violations"])
 
